@@ -1,6 +1,7 @@
 package props
 
 import (
+	"fmt"
 	"go/constant"
 	"go/token"
 	"go/types"
@@ -11,6 +12,7 @@ import (
 )
 
 func c09(c *an.Check) {
+	ioWrapperTransparency(c)
 	p := c.P
 	T := "Conn"
 	rd := p.Func("util/rwc", T, "Read")
@@ -224,4 +226,50 @@ func init() {
 		Explain:     "Decides on SSA for rwc.Conn: (R1) Read returns a nil error only when len(b) >= len(chunk), copies the received chunk, and reports a closed channel as a non-nil error; (ORDER) in the pump, whenever Read returned n!=0 together with an error, buf[:n] of that very buffer is offered to the queue before the error return, and every delivery is buf[:n] of the buffer just read; the pump's deferred cleanup records its error and closes the channel, and it is the only sender/closer; (R1) Write returns nil only when everything was written, resuming at pkt[written:]; (PANIC) totality of these functions. (LOOPALLOC) every pump iteration reads into a buffer (re)assigned from the arena inside the loop before the Read, so queued chunks never alias the buffer of the next read.",
 		NotCov:      "ordering across chunks (single pump goroutine + FIFO channel: trusted); the explicit short-buffer truncation is permitted by the property.",
 		Assumptions: commonAssumptions})
+}
+
+// ioWrapperTransparency: the logging stream wrappers that can sit between rwc.Conn and the real stream hand the
+// (count, error) of the one underlying Read/Write back unchanged and pass the caller's buffer through — a wrapper that
+// rounds the count up or swallows bytes that came with an error breaks "no byte lost, none invented" for every Conn
+// built on it.
+func ioWrapperTransparency(c *an.Check) {
+	p := c.P
+	n, bad := 0, ""
+	for _, pkg := range []string{"util/logconn", "util/logrw"} {
+		for _, fn := range p.PkgFuncs(pkg) {
+			if fn.Parent() != nil || fn.Signature.Recv() == nil || (fn.Name() != "Read" && fn.Name() != "Write") {
+				continue
+			}
+			n++
+			var inner []*ssa.Call
+			for _, b := range fn.Blocks {
+				for _, ins := range b.Instrs {
+					if call, ok := ins.(*ssa.Call); ok && call.Call.IsInvoke() && call.Call.Method.Name() == fn.Name() {
+						inner = append(inner, call)
+					}
+				}
+			}
+			if len(inner) != 1 || !an.IsParam(inner[0].Call.Args[0], 1) {
+				bad = fmt.Sprintf("%s does not make exactly one underlying %s call on the caller's buffer", an.FuncName(fn), fn.Name())
+				continue
+			}
+			st := p.NewState(fn)
+			_ = st
+			c.EachReturn("PROVENANCE", an.FuncName(fn)+" returns the underlying call's (n, err) unchanged", fn, "return = results of the single underlying call", func(s *an.State, ret *ssa.Return) string {
+				r0, r1 := s.RetVal(ret, 0), s.RetVal(ret, 1)
+				e0, ok0 := s.Canon(r0).(*ssa.Extract)
+				e1, ok1 := s.Canon(r1).(*ssa.Extract)
+				if !ok0 || !ok1 || e0.Tuple != ssa.Value(inner[0]) || e1.Tuple != ssa.Value(inner[0]) || e0.Index != 0 || e1.Index != 1 {
+					return "the count or the error reported is not the one the underlying stream returned: bytes are lost (or invented) between the stream and the buffered connection on top"
+				}
+				return ""
+			})
+		}
+	}
+	c.Require(bad == "" && n >= 4, "PROVENANCE", "stream log wrappers are transparent", nil, "", n, "one underlying call on the caller's buffer per Read/Write", func() string {
+		if bad != "" {
+			return bad
+		}
+		return "fewer than 4 wrapper Read/Write methods found (anchor drift)"
+	}())
 }
